@@ -7,10 +7,26 @@
     `Alpaqa/Model/C12.lean`, tied to the real code by the correspondence run of `checks/c12.py`.
   All theorems hold over every (linearly ordered) field, for every horizon, every dimension tuple,
   every user function (oracle) and every mask; IEEE rounding is not modelled.
+
+  PURE FUNCTIONS vs. C++ OBJECTS.  `forward`, `forwardSimulate`, `backward`, `factorMasked`,
+  `solveMasked` are pure functions of the data they are handed (the storage vector, `D`, `D_N`, `μ`,
+  `y`; the per-stage LQR data and masks).  The C++ `OCPEvaluator` is an object with mutable work
+  vectors (`work_x`, `work_λ`, `work_c`, …) and `StatefulLQRFactor` keeps `P`, `gain_K`, `e`, `s`, …
+  between calls; `panoc-ocp.tpp` uses ONE of each for a whole solve and interleaves calls on different
+  storages (`forward` of a rejected candidate between `forward` and `backward` of the iterate that is
+  kept; `take_safe_step` copies `x̂` and calls only `backward`; `initial_lipschitz_estimate` calls
+  `forward_simulate` then `backward`).  The theorems below therefore speak about one call on the
+  storage it is handed; that the real objects' answers do not depend on their call history is NOT a
+  theorem — it is what the call-sequence correspondence of `checks/c12.py` ties: `fbs` ops (one
+  evaluator, K ≥ 3 storages with different constraint activity, seeded sequences of
+  forward / forward_simulate / backward / copy, compared bit for bit with these pure functions and
+  monitored against the exact gradient at the storage handed to `backward`) and `rics` sequences
+  (one factor object across cases, bit-identical to a fresh object).
 -/
 import Alpaqa.Proofs.C12Layout
 import Alpaqa.Proofs.C12Compl
 import Alpaqa.Proofs.C12Forward
+import Alpaqa.Proofs.C12Sim
 import Alpaqa.Proofs.C12Penalty
 import Alpaqa.Proofs.C12Adjoint
 import Alpaqa.Proofs.C12Riccati
@@ -141,7 +157,11 @@ theorem forward_eq_spec (N nx nu nh nc nhN ncN : Nat) (P : OCP α)
         + terminalCost P N nc nhN ncN DN μ y (traj P x0 U N) :=
   (forward_spec N nx nu nh nc nhN ncN P hw D DN μ y st x0 U hlen hx0 hU).1
 
-/-- …and afterwards the storage holds the simulated trajectory, the untouched inputs, the outputs
+/-- `forward` is a function of the storage it is handed (and `D`, `D_N`, `μ`, `y`) alone: this
+    theorem and `backward_adjoint` say nothing about which calls the C++ evaluator object served
+    before — see "PURE FUNCTIONS vs. C++ OBJECTS" in the file header (`fbs` correspondence).
+
+    …and afterwards the storage holds the simulated trajectory, the untouched inputs, the outputs
     and the constraint values (the precondition of `backward`). -/
 theorem forward_storage_spec (N nx nu nh nc nhN ncN : Nat) (P : OCP α)
     (hw : WellDim P nx nh nc nhN ncN) (D DN : Box α) (μ y st x0 : Vec α) (U : Nat → Vec α)
@@ -159,6 +179,13 @@ theorem forward_storage_spec (N nx nu nh nc nhN ncN : Nat) (P : OCP α)
         ((OCPVars.ofProblem N nx nu nh nc nhN ncN).ckStart N)
         ((OCPVars.ofProblem N nx nu nh nc nhN ncN).ckLen N) = P.cN (traj P x0 U N)) :=
   (forward_spec N nx nu nh nc nhN ncN P hw D DN μ y st x0 U hlen hx0 hU).2
+
+/-- `OCPEvaluator::forward_simulate(storage)` (what `panoc-ocp.tpp` runs before the `backward` of
+    `initial_lipschitz_estimate`) leaves exactly the storage `forward` leaves, for every `D`, `D_N`,
+    `μ`, `y`: it establishes the same precondition of `backward`. -/
+theorem forward_simulate_storage (P : OCP α) (v : OCPVars) (D DN : Box α) (μ y st : Vec α) :
+    forwardSimulate P v st = (forward P v D DN μ y st).1 :=
+  forwardSimulate_eq P v D DN μ y st
 
 /-- The penalty term is half the `μ`-weighted squared distance of `ζ = c + y/μ` to the box:
     `½ Σᵢ μᵢ (ζᵢ − Π_D ζᵢ)²`, and `ζᵢ − Π_D ζᵢ` is the signed distance to `[lbᵢ, ubᵢ]` (infinite
@@ -203,7 +230,12 @@ end forward
 section backward
 variable {α : Type} [Field α] [LinearOrder α] [IsStrictOrderedRing α]
 
-/-- For every horizon `N`, every problem and every storage vector: with `A_t, B_t` the Jacobians
+/-- (`backward` is a pure function of the storage it is handed — typically one filled by an earlier
+    `forward` / `forward_simulate`, possibly a copy, with other storages evaluated in between; the
+    history-independence of the C++ evaluator object is tied by the `fbs` call-sequence
+    correspondence, see the file header.)
+
+    For every horizon `N`, every problem and every storage vector: with `A_t, B_t` the Jacobians
     behind `eval_grad_f_prod` at the stored `(x_t, u_t)` (contract `hadj`: the returned vector is the
     adjoint of the linearised dynamics `jac t`), `(q_t, r_t)` the stage gradients `backward` leaves in
     `qr(t)` (`stageQR`: `eval_qr` plus `∇c·(μ∘(ζ − Π_D ζ))`) and `q_N` the terminal one,
@@ -360,7 +392,11 @@ end deriv
 section riccati
 variable {α : Type} [Field α]
 
-/-- For every horizon `N`, all dimensions, every per-stage data (Jacobians `A_t, B_t`, cost blocks
+/-- (`factorMasked` / `solveMasked` are pure functions of the per-stage data and masks; the C++
+    `StatefulLQRFactor` object is reused by `panoc-ocp.tpp` across Gauss-Newton steps with different
+    masks and data — history-independence is tied by the `rics` sequences of `checks/c12.py`.)
+
+    For every horizon `N`, all dimensions, every per-stage data (Jacobians `A_t, B_t`, cost blocks
     `Q_t, R_t, S_t` symmetric, linear terms `q_t, r_t`, prescribed values `u_t`), every per-stage
     split `J_t ++ K_t ~ range nu` of the inputs into free and fixed components (all masks, empty
     and full included) and every solve oracle that meets its contract `R̄X = B` at the matrices that
@@ -516,6 +552,12 @@ example :
     (forward exOCP (OCPVars.ofProblem 2 1 1 1 1 1 1) [(some 0, some 1)] [(none, some 1)]
       [1, 2, 4] [0, 1, 0] st).2 = 0 + (1 / 2 * (3 / 2) * (3 / 2) + 1 / 2 * 2 * (1 / 2) ^ 2)
         + (1 / 2 * (5 / 2) * (5 / 2) + 1 / 2 * 4 * (3 / 2) ^ 2) := by
+  decide +kernel
+
+/-- `forward_simulate` on that storage leaves what `forward` leaves (evaluated). -/
+example :
+    forwardSimulate exOCP (OCPVars.ofProblem 2 1 1 1 1 1 1) [1, -1, 0, 0, 0, 1 / 2, 0, 0, 0, 0, 0]
+      = [1, -1, 0, 1, 1, 1 / 2, 3 / 2, 1, 5 / 2, 5 / 2, 5 / 2] := by
   decide +kernel
 
 /-- the adjointness contract of `backward_adjoint` holds for the Jacobian `(A, B) = (2, 1)`. -/
